@@ -483,10 +483,20 @@ def run(pid, tier, spec):
                 seen.add(id(o))
                 o["validated_against_impl"] = sum(1 for x in owners if x is o) if not dis else 0
         if dis:
-            for o in results:
-                if o.get("validation_cases"):
-                    o["verdict"] = "inconclusive"
-                    o["reason"] = "interpreter and real macro disagree on a witness (translator bug?): " + dis[0][:300]
+            # The witnesses' expectations are the INTERPRETER's predictions for explored paths, and every
+            # obligation interpreter-vs-specification held; so a real program on which the real macro deviates
+            # from the prediction deviates from the specification — demonstrated natively just now. (On the
+            # unchanged tree all witnesses agree, which is what validates the program generator.)
+            all_hold = all(o["verdict"] == "holds" for o in results if o.get("validation_cases") is not None or o.get("task", {}).get("kind") in ("ids", "bind"))
+            os.makedirs(common.REPLAY_DIR, exist_ok=True)
+            path = os.path.join(common.REPLAY_DIR, "%s_e2_witness_%s.json" % (pid, common.sha(dis[0])))
+            with open(path, "w") as f:
+                json.dump({"kind": "e2", "property": pid, "task": {"kind": "witness"}, "obligation": dis, "cases": cases,
+                           "how_to_replay": "/verif/check %s --tier quick (regenerates and re-runs the witness programs)" % pid}, f, indent=1, default=str)
+            results.append(dict(name="witness programs through the real macros", verdict="violation" if all_hold else "inconclusive",
+                                reason=("the real macro deviates from the specification on a real program: " if all_hold else "interpreter and real macro disagree on a witness while obligations do not all hold: ") + dis[0][:300],
+                                what="witnesses of explored MIR paths compiled and run as real programs", queries=len(cases), paths=len(cases), functions=[], task=dict(kind="witness"),
+                                replay_path=path, native={"disagreements": dis}, n_violated=len(dis), samples=[], wall_s=time.time() - t1, bounds="", assumes=[]))
     # C05: negative corpus — programs every query macro must reject at compile time
     if pid == "C05":
         from .mirsym import progs
@@ -539,6 +549,8 @@ def run(pid, tier, spec):
                 r["verdict"] = "inconclusive"
                 r["reason"] = "MIR unwind fact violated but the native run with a panicking Clone shows no symptom: " + r["reason"]
             continue
+        if r["verdict"] == "violation" and r.get("task", {}).get("kind") in ("witness", "negative"):
+            continue    # already demonstrated natively on real programs
         if r["verdict"] == "violation":
             ce = r.get("counterexample")
             if ce:
